@@ -371,30 +371,40 @@ fn case_str(case: &Value) -> Value {
 
 /// kind "fmt": runs `x = <value>` then the two interpolations; returns bytes and cluster counts
 fn case_fmt(case: &Value) -> Value {
-    let value = case["value"].as_str().unwrap_or("0");
-    let full = case["full"].as_str().unwrap_or("");
-    let bare = case["bare"].as_str().unwrap_or("");
-    let run = |spec: &str| -> Result<String, String> {
+    let value = case["value"].as_str().unwrap_or("0").to_string();
+    let full = case["full"].as_str().unwrap_or("").to_string();
+    let bare = case["bare"].as_str().unwrap_or("").to_string();
+    // each interpolation runs under its own catch_unwind: Ok(text) | Err(error class) | panic
+    let run = |spec: &str| -> Result<Result<String, String>, String> {
         let src = format!("x = {value}\n'{{x{spec}}}'");
-        let mut sv = ScriptVm::new();
-        let o = sv.run(&src);
-        if !o.ok {
-            return Err(o.result);
-        }
-        let chunk = sv.compile(&src, CompilerSettings::default()).map_err(|_| "ECompile".to_string())?;
-        match sv.vm.run(chunk) {
-            Ok(KValue::Str(s)) => Ok(s.as_str().to_string()),
-            Ok(_) => Err("EType".into()),
-            Err(_) => Err("EErr".into()),
-        }
+        guarded(AssertUnwindSafe(move || {
+            let mut sv = ScriptVm::new();
+            let chunk = sv.compile(&src, CompilerSettings::default()).map_err(|_| "ECompile".to_string())?;
+            match sv.vm.run(chunk) {
+                Ok(KValue::Str(s)) => Ok(s.as_str().to_string()),
+                Ok(_) => Err("EType".to_string()),
+                Err(e) => Err(kh::script::error_class(&e)),
+            }
+        }))
+        .map_err(|msg| format!("{msg} at {}", last_panic_location()))
     };
-    match (run(full), run(bare)) {
-        (Ok(f), Ok(b)) => json!({
-            "full": f.as_bytes(), "bare": b.as_bytes(),
-            "g_full": f.graphemes(true).count(), "g_bare": b.graphemes(true).count(),
-        }),
-        (f, b) => json!({"error": [f.err(), b.err()]}),
+    let (f, b) = (run(&full), run(&bare));
+    let mut o = serde_json::Map::new();
+    for (name, r) in [("full", &f), ("bare", &b)] {
+        match r {
+            Ok(Ok(s)) => {
+                o.insert(name.into(), json!(s.as_bytes()));
+                o.insert(format!("g_{name}"), json!(s.graphemes(true).count()));
+            }
+            Ok(Err(class)) => {
+                o.insert(format!("error_{name}"), json!(class));
+            }
+            Err(p) => {
+                o.insert("panic".into(), json!(format!("'{{x{}}}': {p}", if name == "full" { &full } else { &bare })));
+            }
+        }
     }
+    Value::Object(o)
 }
 
 /// kind "esc": the string literal '\<body>' compiled and evaluated
